@@ -391,7 +391,7 @@ def skeleton_conformance(chk: Check, n: int) -> None:
             scripts.append({'calls': calls, 'cards': cards})
         evs = []
         for (th, op, obj) in res['blocks']:
-            if th.startswith('client') or op in ('recv', 'ev.set.done', 'gate', 'recv.eof-spin'):
+            if th.startswith('client') or op in ('recv', 'ev.set.done', 'gate', 'recv.eof-spin', 'file.write'):
                 continue
             if th == 'main' and op == 'begin':
                 continue
@@ -501,6 +501,10 @@ def admission_jobs(r, n: int, prefix: str) -> List[tuple]:
         ns, ew = (rand_id(r).strip() or 'n'), (rand_id(r).strip() or 'e')
         if ns == ew and q % 2:
             ew += 'x'
+        if q % 7 == 1:
+            # team names outside ASCII (several bytes per character on the wire)
+            ns = r.choice(['Équipe Zürich', '東京', 'Ünïcødé']) + ns
+            ew = r.choice(['Łódź', 'Ελλάς', 'команда']) + ew
         if q % 7 == 3:
             ns = ''                    # the empty string is a team name too
         if q % 7 == 5:
